@@ -352,6 +352,33 @@ def global_cases():
     return out
 
 
+def toplevel_call_families():
+    """diamonds in which every file CALLS functions at top level (round 10: C09-C, a cache of parsed imports shared the call-graph slices
+    of a file between its importers; which callee got lost depended on the NUMBER of top-level callees): the file reached twice calls k of
+    its own public functions, the first importer j of its own, the second one of its own; every function only stores into a public global
+    (running an initialisation twice - the known finding for files reached twice - changes nothing), main prints the globals"""
+    out = []
+    for k in range(1, 8):
+        for j in (1, 2, 3):
+            shared = ["var A%d int = 0" % i for i in range(k)]
+            for i in range(k):
+                shared += ["func S%d() {" % i, "\tA%d = %d" % (i, i + 1), "}"]
+            shared += ["func Sum() int {", "\treturn " + " + ".join("A%d" % i for i in range(k)), "}"]
+            shared += ["S%d()" % i for i in range(k)]
+            left = ['import s "shared.tsh"'] + ["var L%d int = 0" % i for i in range(j)]
+            for i in range(j):
+                left += ["func SetL%d() {" % i, "\tL%d = s.Sum() + %d" % (i, 10 * (i + 1)), "}"]
+            left += ["func LeftSum() int {", "\treturn " + " + ".join("L%d" % i for i in range(j)), "}"]
+            left += ["SetL%d()" % i for i in range(j)]
+            right = ['import s "shared.tsh"', "var R0 int = 0", "func SetR0() {", "\tR0 = s.Sum() * 2", "}", "func RightSum() int {", "\treturn R0", "}", "SetR0()"]
+            main = ['import (', '\tl "left.tsh"', '\tr "right.tsh"', ')', "print(l.LeftSum(), r.RightSum())"]
+            ssum = sum(range(1, k + 1))
+            exp = "%d %d\n" % (sum(ssum + 10 * (i + 1) for i in range(j)), 2 * ssum)
+            out.append(("toplevel-calls-%d-%d" % (k, j), {"main.tsh": "\n".join(main) + "\n", "left.tsh": "\n".join(left) + "\n",
+                                                         "right.tsh": "\n".join(right) + "\n", "shared.tsh": "\n".join(shared) + "\n"}, exp))
+    return out
+
+
 def defined_before_use(script):
     """every function the script invokes is defined in it before its first call (text level)"""
     defined = set()
@@ -383,7 +410,7 @@ def run(res, b, tier, seed):
         if c.out.get("BASH", ("", ""))[0] != "ERR":
             fails.append((c, "negative-accepted", dict(cls=c.out.get("BASH", ("", ""))[0])))
     # alias resolution matrix: rejected exactly when the property says so, accepted programs print the value of the function meant
-    am = [pipeline.Case("a" + name, {k: v.encode() for k, v in files.items()}, meta=dict(src=files["main.tsh"], expect=exp)) for name, files, exp in alias_matrix() + directory_cases() + global_cases()]
+    am = [pipeline.Case("a" + name, {k: v.encode() for k, v in files.items()}, meta=dict(src=files["main.tsh"], expect=exp)) for name, files, exp in alias_matrix() + directory_cases() + global_cases() + toplevel_call_families()]
     pipeline.run_pipe(b, am, "as")
     acc = [c for c in am if c.out.get("BASH", ("", ""))[0] == "OK"]
     runs = common.pmap_proc(semcheck._exec, [(bytes.fromhex(c.out["BASH"][1]), b"") for c in acc])
